@@ -11,7 +11,7 @@ from datetime import date
 from .common import Hist, make_cfg, run_tax, slots_of
 
 PROPS = ("C09", "C10")
-BUDGET = {"quick": 1200, "thorough": 3600}
+BUDGET = {"quick": 1200, "thorough": 1500}
 METHODS = ("fifo", "lifo", "hifo", "lofo")
 
 
